@@ -42,5 +42,26 @@ def ref_adu(framing, pdu, unit, tidb=b"\x00\x00", pidb=b"\x00\x00"):
     raise ValueError(framing)
 
 
+def binary_clean(unit, pdu):
+    """no '{' / '}' byte in unit, PDU or CRC of a binary frame (frames with one are C03's listed finding
+    KF-binary-delimiters: the receiver never un-escapes them)"""
+    body = bytes([unit]) + pdu
+    lo, hi = lohi(crc16(body))
+    hit = (lo == 0x7B) | (lo == 0x7D) | (hi == 0x7B) | (hi == 0x7D)
+    for i in range(len(body)):
+        hit = hit | (body[i] == 0x7B) | (body[i] == 0x7D)
+    from engine.hlib import lnot
+    return lnot(hit)
+
+
+def ref_adu_clean(framing, pdu, unit, tidb=b"\x00\x00", pidb=b"\x00\x00"):
+    """ref_adu for harnesses whose subject is not the binary framer's delimiter handling: binary frames containing a
+    delimiter byte are assumed away (C03 owns that finding and its witness)"""
+    if framing == "binary":
+        from engine.hlib import assume
+        assume(binary_clean(unit, pdu))
+    return ref_adu(framing, pdu, unit, tidb, pidb)
+
+
 def carries_unit(framing):
     return framing in ("tcp", "rtu", "ascii", "binary")
